@@ -28,6 +28,8 @@
 
 #include <cinttypes>
 #include <cmath>
+#include <csetjmp>
+#include <functional>
 #include <memory>
 #include <string>
 #include <string_view>
@@ -345,18 +347,73 @@ struct Outcome
 {
   bool ok = false;
   bool threw = false;
+  size_t overread = 0; // > 0: the parser read this many bytes past the end of the input (at least)
   size_t offset = 0;
   std::string canon, msg;
 };
 
-Outcome runParse(std::string_view text, const Limits &lim, bool wantCanon)
+// Guarded input buffer.  The input is copied so that it *ends* exactly at a PROT_NONE page: a read at
+// or beyond text.size() faults, the SIGSEGV handler jumps back into runParse() and the case is
+// recorded as an ordinary violation (clause no-crash-no-ub, sig input-overread:...).  This keeps a
+// frequent over-read from costing one worker restart (or one ~1 ms ASan report) per case.  Inputs
+// larger than the window fall back to an exact-size heap block, where ASan aborts on an over-read
+// and the supervisor attributes the crash.  Everything else (heap, stack, UB) stays under ASan+UBSan.
+struct GuardBuf
 {
-  Outcome o;
-  // Parse from a heap block of exactly text.size() bytes (no terminator, no slack) so that ASan sees
-  // any read at or beyond the end of the input.
-  std::unique_ptr<char[]> exact(new char[text.size()]);
-  memcpy(exact.get(), text.data(), text.size());
-  text = std::string_view(exact.get(), text.size());
+  char *base = nullptr;
+  char *guard = nullptr;
+  size_t window = 0, page = 0;
+  void init()
+  {
+    page = size_t(sysconf(_SC_PAGESIZE));
+    window = 256 * page;
+    base = (char *)mmap(nullptr, window + page, PROT_READ | PROT_WRITE, MAP_PRIVATE | MAP_ANONYMOUS, -1, 0);
+    if (base == MAP_FAILED)
+    {
+      base = nullptr;
+      return;
+    }
+    guard = base + window;
+    mprotect(guard, page, PROT_NONE);
+  }
+} g_gb;
+
+sigjmp_buf g_jmp;
+volatile sig_atomic_t g_inParse = 0;
+volatile size_t g_faultBy = 0;
+struct sigaction g_oldSegv;
+
+void onSegv(int sig, siginfo_t *si, void *ctx)
+{
+  char *a = (char *)si->si_addr;
+  if (g_inParse && g_gb.guard && a >= g_gb.guard && a < g_gb.guard + g_gb.page)
+  {
+    g_faultBy = size_t(a - g_gb.guard) + 1;
+    siglongjmp(g_jmp, 1);
+  }
+  // not ours: hand over to the handler that was installed before (ASan's), which reports and dies
+  if (g_oldSegv.sa_flags & SA_SIGINFO)
+    g_oldSegv.sa_sigaction(sig, si, ctx);
+  else
+  {
+    signal(SIGSEGV, SIG_DFL);
+    raise(SIGSEGV);
+  }
+}
+
+void installGuard()
+{
+  g_gb.init();
+  struct sigaction sa;
+  memset(&sa, 0, sizeof sa);
+  sa.sa_sigaction = onSegv;
+  sa.sa_flags = SA_SIGINFO | SA_NODEFER;
+  sigemptyset(&sa.sa_mask);
+  sigaction(SIGSEGV, &sa, &g_oldSegv);
+}
+
+__attribute__((noinline)) void parseInto(std::string_view text, const Limits &lim, bool wantCanon, Outcome &o)
+{
   try
   {
     auto r = Json::parse(text, lim.toIora());
@@ -377,6 +434,33 @@ Outcome runParse(std::string_view text, const Limits &lim, bool wantCanon)
     o.threw = true;
     o.msg = std::string("exception ") + typeid(e).name() + ": " + e.what();
   }
+}
+
+Outcome runParse(std::string_view text, const Limits &lim, bool wantCanon)
+{
+  Outcome o;
+  if (g_gb.base && text.size() <= g_gb.window)
+  {
+    char *p = g_gb.guard - text.size();
+    memcpy(p, text.data(), text.size());
+    g_inParse = 1;
+    if (sigsetjmp(g_jmp, 1) == 0)
+      parseInto(std::string_view(p, text.size()), lim, wantCanon, o);
+    else
+    {
+      // came back from the SIGSEGV handler: whatever the parser had allocated is leaked (LSan is off)
+      o = Outcome{};
+      o.overread = g_faultBy;
+      o.msg = "read past the end of the input";
+    }
+    g_inParse = 0;
+    return o;
+  }
+  // Parse from a heap block of exactly text.size() bytes (no terminator, no slack) so that ASan sees
+  // any read at or beyond the end of the input.
+  std::unique_ptr<char[]> exact(new char[text.size()]);
+  memcpy(exact.get(), text.data(), text.size());
+  parseInto(std::string_view(exact.get(), text.size()), lim, wantCanon, o);
   return o;
 }
 
@@ -549,6 +633,8 @@ bool failsAs(Fail kind, const std::string &text, const Limits &lim, const RefRes
   if (ref.kind != 'V')
     return false;
   Outcome o = runParse(text, lim, kind == Fail::WrongValue);
+  if (o.threw || o.overread)
+    return false;
   return kind == Fail::Rejected ? !o.ok : (o.ok && o.canon != ref.canon);
 }
 
@@ -741,40 +827,33 @@ std::string attributeParse(Ctx &cx, Fail kind, const std::string &text, const Li
   return sk;
 }
 
-bool offsetViolates(const std::string &bytes, const Limits &lim)
-{
-  Outcome o = runParse(bytes, lim, false);
-  return !o.ok && !o.threw && o.offset > bytes.size();
-}
-
-// Minimise an input whose reported error offset lies outside the input; sig = the minimal input.
-std::string offsetSig(const std::string &bytes, const Limits &lim)
+// Minimise an input while `bad` keeps holding: shortest bad suffix, then shortest bad prefix of it,
+// then substring deletions (longest first) to a fixpoint.
+std::string minimise(const std::string &bytes, const std::function<bool(const std::string &)> &bad)
 {
   std::string cur = bytes;
-  // shortest violating suffix
   for (size_t i = cur.size(); i-- > 0;)
-    if (offsetViolates(cur.substr(i), lim))
+    if (bad(cur.substr(i)))
     {
       cur = cur.substr(i);
       break;
     }
-  // shortest violating prefix
   for (size_t n = 0; n < cur.size(); ++n)
-    if (offsetViolates(cur.substr(0, n), lim))
+    if (bad(cur.substr(0, n)))
     {
       cur = cur.substr(0, n);
       break;
     }
-  // delete substrings (longest first) to a fixpoint
   bool changed = true;
   while (changed)
   {
     changed = false;
-    for (size_t len = cur.size() > 1 ? cur.size() - 1 : 0; len >= 1 && !changed; --len)
+    // all substrings while that is cheap (n^3 parses-bytes), single bytes only for long inputs
+    for (size_t len = cur.size() > 64 ? 1 : cur.size() > 1 ? cur.size() - 1 : 0; len >= 1 && !changed; --len)
       for (size_t i = 0; i + len <= cur.size(); ++i)
       {
         std::string c2 = cur.substr(0, i) + cur.substr(i + len);
-        if (offsetViolates(c2, lim))
+        if (bad(c2))
         {
           cur = c2;
           changed = true;
@@ -782,9 +861,24 @@ std::string offsetSig(const std::string &bytes, const Limits &lim)
         }
       }
   }
-  bool alsoDefault = lim.isDefault() || offsetViolates(cur, Limits{});
-  return "offset>size:min=" + esc(cur, 24) + (alsoDefault ? "" : ":only-with-limits=" + lim.str());
+  return cur;
 }
+
+bool offsetViolates(const std::string &bytes, const Limits &lim)
+{
+  Outcome o = runParse(bytes, lim, false);
+  return !o.ok && !o.threw && !o.overread && o.offset > bytes.size();
+}
+
+// sig = the minimal input that still shows the failure (plus the limits if they are needed for it)
+std::string minimalInputSig(const char *what, const std::string &bytes, const Limits &lim, bool (*bad)(const std::string &, const Limits &))
+{
+  std::string cur = minimise(bytes, [&](const std::string &b) { return bad(b, lim); });
+  bool alsoDefault = lim.isDefault() || bad(cur, Limits{});
+  return std::string(what) + ":min=" + esc(cur, 24) + (alsoDefault ? "" : ":only-with-limits=" + lim.str());
+}
+
+bool overreads(const std::string &bytes, const Limits &lim) { return runParse(bytes, lim, false).overread > 0; }
 
 // ------------------------------------------------------------------ evaluation of the three case kinds
 struct Eval
@@ -808,11 +902,20 @@ struct Eval
       viol("no-crash-no-ub", "exception", kase, o.msg);
       return;
     }
+    if (o.overread)
+    {
+      ++r.counters["input_overreads"];
+      char d[200];
+      snprintf(d, sizeof d, "the parser read at least %zu byte(s) past the end of the %zu-byte input (std::string_view out of bounds)",
+               (size_t)o.overread, bytes.size());
+      viol("no-crash-no-ub", minimalInputSig("input-overread", bytes, lim, overreads), kase, d);
+      return;
+    }
     if (!o.ok && o.offset > bytes.size())
     {
       char d[200];
       snprintf(d, sizeof d, "error \"%s\" reported at offset %zu but the input has %zu bytes", o.msg.c_str(), o.offset, bytes.size());
-      viol("error-offset-inside-input", offsetSig(bytes, lim), kase, d);
+      viol("error-offset-inside-input", minimalInputSig("offset>size", bytes, lim, offsetViolates), kase, d);
     }
   }
 
@@ -837,7 +940,7 @@ struct Eval
       printf("P: reference=%c %s\n   iora ok=%d %s offset=%zu msg=%s\n", ref.kind, ref.canon.substr(0, 300).c_str(), o.ok,
              o.canon.substr(0, 300).c_str(), o.offset, o.msg.c_str());
     checkOffset(text, lim, o, kase);
-    if (o.threw)
+    if (o.threw || o.overread)
       return;
     if (ref.kind == 'U')
     {
@@ -1136,7 +1239,9 @@ struct Eval
         printf("D[%s]: dump=%s\n   want=%s\n   reparsed ok=%d %s %s\n", optName(k), esc(text, 400).c_str(), want.substr(0, 300).c_str(), o.ok,
                o.canon.substr(0, 300).c_str(), o.msg.c_str());
       checkOffset(text, Limits{}, o, kase);
-      if (!o.ok || o.canon != want)
+      if (o.threw || o.overread)
+        ; // already reported
+      else if (!o.ok || o.canon != want)
       {
         std::string sig = attributeDump(spec, leaves, k, RoundTrip);
         viol("roundtrip-equal", sig, kase,
@@ -1243,6 +1348,7 @@ int main(int argc, char **argv)
   g_oraclePath = args.get("oracle");
   if (g_oraclePath.empty() || g_oraclePath.find('{') != std::string::npos)
     g_oraclePath = defaultOracle();
+  installGuard();
   if (!args.replay.empty())
     return replay(args);
 
